@@ -16,6 +16,15 @@ mod util;
 use util::{RepeatableLockFuture, WaitGroup};
 
 
+/// Tests whether `e` is a converted [`parser::Error::AbortRequest`], as
+/// opposed to an [`io::ErrorKind::ConnectionAborted`] from the transport.
+#[must_use]
+fn is_abort_request(e: &io::Error) -> bool {
+    let inner = e.get_ref().and_then(|inner| inner.downcast_ref::<parser::Error>());
+    matches!(inner, Some(parser::Error::AbortRequest))
+}
+
+
 /// An unbuffered, `async` writer for output to a FastCGI stream.
 ///
 /// Use `Request::output_stream` to obtain an instance for a given stream. Note
@@ -434,7 +443,7 @@ impl<'a, R: AsyncRead + Unpin, W: AsyncWrite + Unpin> Request<'a, R, W> {
         // Prepare request for shutdown
         match self.writeable().await {
             Ok(()) => {},
-            Err(e) if e.kind() == io::ErrorKind::ConnectionAborted => { /* Ignore */ },
+            Err(e) if is_abort_request(&e) => { /* Ignore */ },
             Err(e) => return Err(e),
         }
         self.parser.set_stream(None).expect("ignoring stream data should always be allowed");
@@ -662,7 +671,7 @@ impl Token {
                 let mut req = Request::new(sparser, input, output);
                 let status = match handler(&mut req).await {
                     Ok(s) => s,
-                    Err(e) if e.kind() == io::ErrorKind::ConnectionAborted => {
+                    Err(e) if is_abort_request(&e) => {
                         tracing::debug!("request aborted by remote");
                         ExitStatus::ABORT
                     },
